@@ -145,6 +145,10 @@ func (p *PackageProgress) stageStreamData() error {
 		}()
 		offset, dataLen := stream.GetDataOffsetAndLen()
 		pack.Offset = offset
+		if oldLen, ok := pack.OffsetRecord[offset]; ok {
+			// 补传/重复上传同一个偏移的数据 之前统计的大小要减掉 否则文件还没收全就被当成完成了
+			pack.CurrentSize -= uint32(oldLen)
+		}
 		pack.OffsetRecord[offset] = dataLen
 		pack.OffsetDataRecord[offset] = p.historyData[headLen : headLen+bodyLen]
 		pack.CurrentSize += uint32(bodyLen)
